@@ -355,6 +355,114 @@ def items_attr(src):
     yield ("Attr", "endingKindIndices", ": List Nat", ending, "[1, 6, 16]")
 
 
+AGENT = "stun-proto/src/agent.rs"
+AMBIENT = ["Instant::now", "SystemTime", "thread_local", "static mut", "lazy_static", "OnceLock", "OnceCell",
+           "LazyLock", "rand::", "std::env", "env::var", "UNIX_EPOCH", "process::id", "thread::current"]
+
+
+def items_agent(src):
+    txt = src.get(AGENT)
+
+    def defaults(which):
+        def f():
+            body = fn_body(txt, r"fn\s+new\s*\(\s*request\s*:\s*MessageBuilder")
+            if body is None:
+                raise XlateError("StunRequestState::new not found")
+            m = re.search(r"if\s+transport\s*==\s*TransportType::Tcp\s*\{\s*\(\s*vec!\[([^\]]*)\]\s*,\s*([0-9_]+)\s*\)\s*\}\s*else\s*\{\s*\(\s*vec!\[([^\]]*)\]\s*,\s*([0-9_]+)\s*\)\s*\}", body)
+            if not m:
+                raise XlateError("default timeouts shape")
+            def lst(t):
+                return "[" + ", ".join(xlate(x, {}, 64) for x in t.split(",") if x.strip()) + "]"
+            return {"tcpT": lst(m.group(1)), "tcpL": xlate(m.group(2), {}, 64),
+                    "udpT": lst(m.group(3)), "udpL": xlate(m.group(4), {}, 64)}[which]
+        return f
+    yield ("Agent", "defaultUdpTimeouts", ": List Nat", defaults("udpT"), "[500, 1000, 2000, 4000, 8000, 16000]")
+    yield ("Agent", "defaultUdpLast", "", defaults("udpL"), "8000")
+    yield ("Agent", "defaultTcpTimeouts", ": List Nat", defaults("tcpT"), "[]")
+    yield ("Agent", "defaultTcpLast", "", defaults("tcpL"), "39500")
+
+    def idle():
+        body = fn_body(txt, r"pub\s+fn\s+poll\s*<\s*'a\s*>\s*\(\s*&mut\s+self\s*,\s*now\s*:\s*Instant\s*\)\s*->\s*StunAgentPollRet")
+        if body is None:
+            raise XlateError("StunAgent::poll not found")
+        m = re.search(r"unwrap_or\(\s*now\s*\+\s*Duration::from_secs\(\s*([0-9_]+)\s*\)\s*\)", body)
+        if not m:
+            raise XlateError("idle wait shape")
+        return xlate(m.group(1), {}, 64)
+    yield ("Agent", "idleWaitSecs", "", idle, "3600")
+
+    def ambient():
+        # C20 source obligation: ambient-state tokens in the non-test, comment-stripped agent source
+        if not txt:
+            raise XlateError("agent.rs not found")
+        hits = [t for t in AMBIENT if t in txt]
+        return "[" + ", ".join('"' + h + '"' for h in hits) + "]"
+    yield ("Agent", "ambientTokens", ": List String", ambient, "[]")
+
+    def statics():
+        if not txt:
+            raise XlateError("agent.rs not found")
+        names = re.findall(r"^\s*(?:pub\s+)?static\s+(?:mut\s+)?([A-Z_0-9]+)\s*:", txt, flags=re.M)
+        return "[" + ", ".join('"' + n + '"' for n in names) + "]"
+    yield ("Agent", "statics", ": List String", statics, '["STUN_AGENT_COUNT"]')
+
+    def static_uses():
+        # lines (outside the declaration) that mention the only permitted static
+        if not txt:
+            raise XlateError("agent.rs not found")
+        uses = [l.strip() for l in txt.splitlines() if "STUN_AGENT_COUNT" in l and not re.match(r"\s*static\s", l)]
+        return str(len(uses))
+    yield ("Agent", "staticUseCount", "", static_uses, "1")
+
+
+def _range_to_lean(r):
+    r = r.strip()
+    def opt(x):
+        x = x.strip()
+        return "none" if x == "" else "some (" + xlate(x, {}, 64) + ")"
+    if r == "..":
+        return "(none, none)"
+    m = re.match(r"^(.*?)\.\.=(.*)$", r)
+    if m:
+        return f"({opt(m.group(1))}, {opt(m.group(2))})"
+    m = re.match(r"^(.*?)\.\.$", r)
+    if m:
+        return f"({opt(m.group(1))}, none)"
+    raise XlateError(f"range shape {r!r}")
+
+
+def items_limits(src):
+    def ranges():
+        out = []
+        for kind, f in KIND_FILES:
+            txt = src.get("stun-types/src/attribute/" + f)
+            body = fn_body(txt, r"impl(?:\s*<[^>]*>)?\s+TryFrom\s*<\s*&\s*RawAttribute(?:\s*<[^>]*>)?\s*>\s+for\s+" + kind + r"\s*\{")
+            if body is None:
+                raise XlateError(f"TryFrom for {kind} not found")
+            m = re.search(r"check_type_and_len\(\s*Self::TYPE\s*,\s*([^)]*?)\s*\)", body)
+            if m:
+                out.append(_range_to_lean(m.group(1)))
+            elif kind == "UnknownAttributes" and "!= Self::TYPE" in body:
+                out.append("(none, none)")
+            else:
+                raise XlateError(f"length check of {kind} not found")
+        return "[" + ", ".join(out) + "]"
+    yield ("Limits", "decodeRanges", ": List (Option Nat × Option Nat)", ranges,
+           "[(none, some 513), (some 20, some 20), (some 4, some 767), (none, none), (none, some 763), (none, some 763), (some 16, some 32), (some 4, none), (some 32, some 32), (none, none), (some 4, some 4), (some 0, some 0), (some 4, none), (none, none), (none, some 763), (none, none), (some 4, some 4), (some 8, some 8), (some 8, some 8)]")
+
+    def newlimits():
+        out = []
+        for kind, f, var in [("Username", "user.rs", "user"), ("Realm", "realm.rs", "realm"),
+                             ("Nonce", "nonce.rs", "nonce"), ("Software", "software.rs", "software")]:
+            txt = src.get("stun-types/src/attribute/" + f)
+            m = re.search(r"if\s+" + var + r"\.len\(\)\s*>\s*([0-9_]+)\s*\{", txt)
+            if not m:
+                raise XlateError(f"constructor limit of {kind} not found")
+            out.append(xlate(m.group(1), {}, 64))
+        return "[" + ", ".join(out) + "]"
+    yield ("Limits", "textNewLimits", ": List Nat", newlimits, "[513, 763, 763, 763]")
+
+
 def generate(repo, gen_dir):
     """writes <gen_dir>/<Group>.lean for every item group; files are only rewritten when their
     content changes (so that lake's traces stay valid)."""
@@ -364,14 +472,14 @@ def generate(repo, gen_dir):
     extracted, fallbacks = [], []
     groups = {}
     import itertools
-    for group, name, params, thunk, fallback in itertools.chain(items(src), items_xor(src), items_attr(src)):
+    for group, name, params, thunk, fallback in itertools.chain(items(src), items_xor(src), items_attr(src), items_agent(src), items_limits(src)):
         try:
             body = thunk()
             extracted.append(name)
         except Exception as e:  # noqa
             body = fallback
             fallbacks.append(f"{name}: {e}")
-        ret = "" if ":" in params.split(")")[-1] else " : Nat"
+        ret = "" if params.strip().startswith(":") or ":" in params.split(")")[-1] else " : Nat"
         groups.setdefault(group, []).append(f"def {name} {params}{ret} := {body}".replace("  ", " "))
     os.makedirs(gen_dir, exist_ok=True)
     for group, defs in groups.items():
